@@ -258,10 +258,16 @@ def register(reg):
 
         prev = I.registry.yield_hook
         I.registry.yield_hook = on_yield
+        escaped = None
         try:
             I.iterate(gen)
+        except SymRaise as sr:
+            escaped = sr.exc
         finally:
             I.registry.yield_hook = prev
+        eng.check(f"{name}#ensures.no_exception_of_its_own", escaped is None, detail=repr(escaped))
+        if escaped is not None:
+            return
         log.append(("result", conclusion_name(I, gen.result)))
         ev = [e for e in log if e[0] != "bad invariants call"]
         eng.input_syms.append(("script", C.Const(None), repr([(n[1], n[2]) for n in eng.path_notes if isinstance(n, tuple) and len(n) == 3 and n[0] == "choice"])))
@@ -325,7 +331,7 @@ def register(reg):
         else:
             eng.check(f"{name}#ensures.result_is_the_truth_value_of_the_condition", r is want and what != 4)
 
-    reg.add(C.Contract(f"{IV}:InterruptBlock.isEnabled", params=dict(self=C.Const(None)), setup=setup_enabled, post=post_enabled, raises=[C.Raises("Exception", mode="may")], properties=("C13",)))
+    reg.add(C.Contract(f"{IV}:InterruptBlock.isEnabled", params=dict(self=C.Const(None)), setup=setup_enabled, post=post_enabled, raises=[C.Raises("Exception", mode="may")], replay=replay_is_enabled, properties=("C13",)))
 
     # =============================================================================== Invocable._checkAllPreconditions / Behavior._start
     def guards_object(I, cls, log, fail_at):
@@ -360,7 +366,7 @@ def register(reg):
         eng.check(f"{name}#ensures.guards_receive_the_agent_and_the_arguments", all(e[1] is self.fields["_agent"] and e[2] == ("arg",) and e[3] == {"kw": 1} for e in ev))
         eng.check(f"{name}#raises.violation_propagates_iff_a_guard_fails", (outcome[0] == "raise") == (fail_at is not None))
 
-    reg.add(C.Contract(f"{IV}:Invocable._checkAllPreconditions", params=dict(self=C.Const(None)), setup=setup_cap, post=post_cap, raises=[C.Raises("Exception", mode="may")], properties=("C13",)))
+    reg.add(C.Contract(f"{IV}:Invocable._checkAllPreconditions", params=dict(self=C.Const(None)), setup=setup_cap, post=post_cap, raises=[C.Raises("Exception", mode="may")], replay=replay_guard_order, properties=("C13",)))
 
     def setup_bstart(I, env):
         fail_at = [None, "preconditions", "invariants"][MD.pick(I, 3, "guards: all hold / a precondition fails / an invariant fails")]
@@ -402,6 +408,7 @@ def register(reg):
             post=post_bstart,
             inline=["Invocable._start", "Invocable._finalizeArguments", "Invocable._checkAllPreconditions"],
             raises=[C.Raises("Exception", mode="may")],
+            replay=replay_behavior_start,
             properties=("C13",),
         )
     )
@@ -592,18 +599,108 @@ def replay_run_try_interrupt(inputs, clause):
 
 
 def replay_clause_priority(inputs, clause):
-    """Real programs: when several interrupt conditions hold, the handler of the LATEST clause runs."""
+    """Real programs: when several interrupt conditions hold, the handler of the LATEST clause runs; each handler
+    belongs to the condition of its own clause."""
     import scenic
     from scenic.core.simulators import DummySimulator
 
-    for n in (2, 3):
-        clauses = "".join(f"    interrupt when simulation().currentTime >= 1:\n        take {k + 1}\n" for k in range(n))
-        src = "behavior B():\n    try:\n        while True:\n            take 0\n" + clauses + "ego = new Object with behavior B\n"
+    def actions(src, steps):
         sc = scenic.scenarioFromString(src)
         scene, _ = sc.generate()
-        sim = DummySimulator().simulate(scene, maxSteps=3)
+        sim = DummySimulator().simulate(scene, maxSteps=steps)
         ego = scene.objects[0]
-        acts = [a[ego][0] for a in sim.result.actions]
+        return [a[ego][0] for a in sim.result.actions]
+
+    for n in (2, 3):
+        clauses = "".join(f"    interrupt when simulation().currentTime >= 1:\n        take {k + 1}\n" for k in range(n))
+        acts = actions("behavior B():\n    try:\n        while True:\n            take 0\n" + clauses + "ego = new Object with behavior B\n", 3)
         if acts[1] != n:
             return f"{n} interrupt clauses whose conditions all hold from step 1 on: the agent's actions are {acts}; documented: the handler of the latest clause (take {n}) pre-empts at step 1"
+    clauses = "".join(f"    interrupt when simulation().currentTime == {k + 1}:\n        take {k + 1}\n" for k in range(3))
+    acts = actions("behavior B():\n    try:\n        while True:\n            take 0\n" + clauses + "ego = new Object with behavior B\n", 5)
+    if acts != [0, 1, 2, 3, 0]:
+        return f"three clauses `interrupt when currentTime == k: take k` (k = 1, 2, 3): the agent's actions are {acts}; documented: [0, 1, 2, 3, 0] (each handler runs when ITS condition holds)"
     return None
+
+
+def replay_is_enabled(inputs, clause):
+    """The REAL InterruptBlock.isEnabled with conditions that look at the guard flag."""
+    import scenic  # noqa: F401
+    import scenic.syntax.veneer as veneer
+    from scenic.core.dynamics.invocables import InterruptBlock
+
+    for kind in ("true", "false", "raises"):
+        seen = []
+
+        def cond(kind=kind):
+            seen.append(veneer.evaluatingGuard)
+            if kind == "raises":
+                raise KeyError("raised by the condition")
+            return kind == "true"
+
+        blk = InterruptBlock(cond, None)
+        try:
+            r = blk.isEnabled
+        except KeyError:
+            r = "raised"
+        if seen != [True]:
+            return f"the interrupt condition was evaluated {len(seen)} time(s) with veneer.evaluatingGuard = {seen}"
+        if veneer.evaluatingGuard:
+            veneer.evaluatingGuard = False
+            return f"veneer.evaluatingGuard is still set after isEnabled ({kind} condition)"
+        if kind != "raises" and r is not (kind == "true"):
+            return f"isEnabled returned {r!r} for a {kind} condition"
+    return None
+
+
+def replay_guard_order(inputs, clause):
+    """The REAL Invocable._checkAllPreconditions on an object whose guard checkers log."""
+    import scenic  # noqa: F401
+    from scenic.core.dynamics.invocables import Invocable
+
+    log = []
+
+    class Inv(Invocable):
+        def checkPreconditions(self, agent, *a, **k):
+            log.append(("preconditions", agent, a, k))
+
+        def checkInvariants(self, agent, *a, **k):
+            log.append(("invariants", agent, a, k))
+
+    inv = Inv("arg", kw=1)
+    inv._agent = "agent"
+    inv._checkAllPreconditions()
+    if [e[0] for e in log] != ["preconditions", "invariants"]:
+        return f"guards checked in the order {[e[0] for e in log]}; documented: preconditions, then invariants"
+    if any(e[1:] != ("agent", ("arg",), {"kw": 1}) for e in log):
+        return f"guards called with {log}"
+    return None
+
+
+def replay_behavior_start(inputs, clause):
+    """A real behavior whose guards and body log: guards are checked when the behavior starts, before its body runs."""
+    import builtins
+
+    import scenic
+    from scenic.core.simulators import DummySimulator
+
+    log = []
+    builtins._pyvc_log = log
+    src = (
+        "import builtins\nlog = builtins._pyvc_log\n"
+        "behavior B(x):\n    precondition: log.append(('pre', x, self is not None)) or True\n    invariant: log.append(('inv', x, self is not None)) or True\n"
+        "    log.append(('body', x))\n    take 1\n    log.append(('resumed', x))\n    take 2\n"
+        "ego = new Object with behavior B(5)\n"
+    )
+    sc = scenic.scenarioFromString(src)
+    scene, _ = sc.generate()
+    del log[:]
+    DummySimulator().simulate(scene, maxSteps=2)
+    ks = [e[0] for e in log]
+    if ks[:3] != ["pre", "inv", "body"]:
+        return f"events when the behavior starts: {ks}; documented: preconditions, then invariants, then (at the first step) the body"
+    if any(e[1:] != (5, True) for e in log if e[0] in ("pre", "inv")):
+        return f"guards evaluated with {log}"
+    return None
+
+
